@@ -47,7 +47,8 @@ def run(res, replay=None):
         fams = ["uniform", "lattice", "tiny", "coplanar", "cospherical", "aniso"]
         k = 0
         while len(inputs) < cnt:
-            inp = T.gen_input(rng, fams[k % len(fams)], (k // 2) % 3 + 1, (k // 3) % 2 == 1, nmax=16)
+            # every family in every dimensionality, periodic and not (the indices are decoupled: k % 6, (k // 6) % 3, (k // 18 + k) % 2)
+            inp = T.gen_input(rng, fams[k % len(fams)], (k // len(fams)) % 3 + 1, (k // (3 * len(fams)) + k) % 2 == 1, nmax=16)
             k += 1
             if T.known_class(inp):
                 continue
@@ -113,7 +114,12 @@ def run(res, replay=None):
             for m1, m2 in zip(o["moments"], o["wf_moments"]):
                 for j in range(10):
                     degs = [0, 1, 1, 1, 2, 2, 2, 2, 2, 2]
-                    t = 10 * tol["vol_tol"] * max(1.0, mmax) ** degs[j]
+                    # two floating-point evaluations of the same integral: they may differ by rounding only (measured: < 1e-4 of this bound
+                    # on every family), not by the 1e-9 of the box volume allowed against the exact model
+                    t = max(1e-11, tol["relc"]) * max(abs(C.b2f(m1["m"][0])), 1e-3 * tol["vol"]) * max(1.0, mmax) ** degs[j]
+                    _r = abs(C.b2f(m1["m"][j]) - C.b2f(m2["m"][j])) / (max(abs(C.b2f(m1["m"][0])), 1e-3 * tol["vol"]) * max(1.0, mmax) ** degs[j]) / max(1e-11, tol.get("relc", 0.0))
+                    _k = "wf_ratio:" + inp["family"].split(":")[0]
+                    res.notes[_k] = max(res.notes.get(_k, 0.0), _r)
                     if abs(C.b2f(m1["m"][j]) - C.b2f(m2["m"][j])) > t:
                         res.violation("C14:with-faces-differs" + geo.mismatch_class(rec), f"cell {m1['idx']}: moment #{j} differs between cells with and without face data: {C.b2f(m1['m'][j])} vs {C.b2f(m2['m'][j])}", dict(ctx, cell=m1["idx"]))
                         break
